@@ -76,7 +76,7 @@ func loadKey(t testing.TB, name string) *rsaKey {
 	return k
 }
 
-var plainKeyNames = []string{"plain-1024", "plain-1025", "plain-1026", "plain-1027", "plain-1028", "plain-1029", "plain-1030", "plain-1031", "plain-1536", "plain-2041", "plain-2048", "plain-3072", "plain-4096"}
+var plainKeyNames = []string{"plain-1024", "plain-1025", "plain-1026", "plain-1027", "plain-1028", "plain-1029", "plain-1030", "plain-1031", "plain-1536", "plain-2041", "plain-2048", "plain-2048-e7", "plain-2048-e11", "plain-2048-e65539", "plain-3072", "plain-4096"}
 var safeKeyNames = []string{"safe-1024", "safe-1025", "safe-1536", "safe-2048"}
 
 // power computes c^d mod N with the CRT (workload generator: signing crafted
